@@ -13,6 +13,12 @@ for x in res['fails']:
     g['n'] += 1; g['props'] |= set(x['props'])
 for key, g in sorted(groups.items(), key=lambda kv: -kv[1]['n']):
     x = g['ex']
+    if x['ops'] and isinstance(x['ops'], list) and 'kind' in x['ops'][0]:
+        print('%4d %s %s' % (g['n'], sorted(g['props']), key))
+        if '-v' in sys.argv:
+            print('       ', ' ; '.join('%s(%s)'%(a['kind'],','.join(str(v) for v in (a['h'],a['n'],a['u'],a['mode'],a['c'],a['f'],a['fk']) if v!='-')) for a in x['ops']))
+            print('       exp:', json.dumps(x['expected'])[:300], ' got:', json.dumps(x['observed'])[:300])
+        continue
     if isinstance(x['ops'], dict):
         print('%4d %s %s' % (g['n'], sorted(g['props']), key))
         if '-v' in sys.argv:
